@@ -471,7 +471,8 @@ func vfC13Run(c vfC13Case, ctx *vfCtx) *vfViolation {
 				for _, cnd := range u {
 					byID[cnd.ID] = cnd
 				}
-				for _, h := range hits {
+				seenTie := map[uint32]bool{}
+				for r, h := range hits {
 					cnd, in := byID[h.ID]
 					if !in {
 						return vfFail("op %d partial probe: id %d is not a live vector of any cluster that may be probed", i, h.ID)
@@ -479,6 +480,16 @@ func vfC13Run(c vfC13Case, ctx *vfCtx) *vfViolation {
 					if d := float64(h.Score) - cnd.Want; d > cnd.Tol || -d > cnd.Tol {
 						return vfFail("op %d partial probe: id %d score %v oracle %v", i, h.ID, h.Score, cnd.Want)
 					}
+					if seenTie[h.ID] {
+						return vfFail("op %d partial probe: id %d returned twice", i, h.ID)
+					}
+					seenTie[h.ID] = true
+					if r > 0 && hits[r-1].Score > h.Score {
+						return vfFail("op %d partial probe: results out of order at rank %d", i, r)
+					}
+				}
+				if op.K > 0 && len(hits) > op.K {
+					return vfFail("op %d partial probe: %d results for k=%d", i, len(hits), op.K)
 				}
 				continue
 			}
